@@ -1,6 +1,2 @@
 #include "vf.hpp"
-#include <atomic>
-namespace vf { std::atomic<int> g_tsan_reports{0}; }
-// ThreadSanitizer calls this weak hook for every report it is about to print
-extern "C" void __tsan_on_report(void *) { ++vf::g_tsan_reports; }
 int main(int argc, char **argv) { return vf::vf_main(argc, argv, "concurrent"); }
